@@ -4,6 +4,7 @@ package boxlib
 
 import (
 	"fmt"
+	"strings"
 	"sync"
 	"time"
 
@@ -29,6 +30,8 @@ type Scenario struct {
 	Threads [][]Step `json:"threads"`
 	Pre     []Step   `json:"pre,omitempty"` // executed sequentially before the threads start
 	Bound   int      `json:"bound"`         // preemption bound
+	// MaxTopics: MaxInFlightTopicsBySender of the box (0: 10000, the value SilentScheme configures)
+	MaxTopics int `json:"max_topics,omitempty"`
 }
 
 func topicBytes(t string) []byte {
@@ -43,6 +46,7 @@ type handler struct {
 }
 
 func (h *handler) HandleMessage(m *tss.IncMessage) {
+	sched.Yield()
 	h.mu.Lock()
 	*h.log = append(*h.log, string(m.Data))
 	h.mu.Unlock()
@@ -52,6 +56,7 @@ type Result struct {
 	Handed   []string            // hand-over log (message ids)
 	Calls    map[string][2]int   // message id -> (call index, return index) in the harness' own order
 	Sends    map[string][][2]int // topic -> call intervals of the Send calls
+	Fwd      map[string][]int    // topic -> stamps at which ForwardSend was entered
 	Trace    []string
 	Deadlock bool
 	Unfin    []string
@@ -60,19 +65,31 @@ type Result struct {
 }
 
 func Run(c *harness.C, sc Scenario, r *explore.Recorder) *Result {
-	res := &Result{Calls: map[string][2]int{}, Sends: map[string][][2]int{}, Pending: -1}
+	res := &Result{Calls: map[string][2]int{}, Sends: map[string][][2]int{}, Fwd: map[string][]int{}, Pending: -1}
 	var mu sync.Mutex
 	var handed []string
 	failedSub := false
 	rec := c.Bubble(func() {
 		tick := make(chan time.Time)
-		box := &msg.Box{Logger: world.NopLogger{}, MaxInFlightTopicsBySender: 10000, GCSweep: 20 * time.Second, GCExpire: 2 * time.Minute,
-			NewTicker:      func(time.Duration) *time.Ticker { return &time.Ticker{C: tick} },
-			ForwardSend:    func(uint8, []byte, []byte, ...tss.UniversalID) {},
-			MessageHandler: &handler{mu: &mu, log: &handed}}
 		var clk int
 		var cmu sync.Mutex
 		stamp := func() int { cmu.Lock(); defer cmu.Unlock(); clk++; return clk }
+		maxTopics := sc.MaxTopics
+		if maxTopics == 0 {
+			maxTopics = 10000
+		}
+		box := &msg.Box{Logger: world.NopLogger{}, MaxInFlightTopicsBySender: maxTopics, GCSweep: 20 * time.Second, GCExpire: 2 * time.Minute,
+			NewTicker: func(time.Duration) *time.Ticker { return &time.Ticker{C: tick} },
+			ForwardSend: func(_ uint8, topic []byte, _ []byte, _ ...tss.UniversalID) {
+				// the transport: Send's critical section is over when it is entered
+				f := stamp()
+				cmu.Lock()
+				t := strings.TrimRight(string(topic), "\x00")
+				res.Fwd[t] = append(res.Fwd[t], f)
+				cmu.Unlock()
+				sched.Yield()
+			},
+			MessageHandler: &handler{mu: &mu, log: &handed}}
 		do := func(s Step) {
 			switch s.Kind {
 			case "R":
@@ -209,14 +226,24 @@ func OracleCore(sc Scenario, res *Result, rp Replay, report func(clause, sig, de
 		}
 	}
 	// did a Send on the message's topic overlap its receive call? (the known check-then-act window)
+	// racing-send-receive-began-before-forward: the receive call began before that Send had left
+	// its critical section (the known check-then-act window of storeOrForward against Send);
+	// racing-send-receive-began-after-forward: it began when the topic was already marked started.
 	racing := func(id, topic string) string {
 		c := res.Calls[id]
-		for _, iv := range res.Sends[topic] {
+		cls := "no-racing-send"
+		for i, iv := range res.Sends[topic] {
 			if iv[0] < c[1] && c[0] < iv[1] {
-				return "racing-send"
+				if i < len(res.Fwd[topic]) && c[0] > res.Fwd[topic][i] {
+					if cls == "no-racing-send" {
+						cls = "racing-send-receive-began-after-forward"
+					}
+				} else {
+					cls = "racing-send-receive-began-before-forward"
+				}
 			}
 		}
-		return "no-racing-send"
+		return cls
 	}
 	outcome := "ok"
 	for _, s := range recv {
@@ -272,6 +299,8 @@ func Scenarios(thorough bool) []Scenario {
 		{Name: "s6-burst101;Rother;S", Threads: [][]Step{{{Kind: "burst", ID: "b", Topic: "X", Sender: 1, N: 101}, R("m1", "X", 2), R("m2", "X", 2), S("X")}}, Bound: 0},
 		{Name: "s7-burst99;R;R;S", Threads: [][]Step{{{Kind: "burst", ID: "b", Topic: "X", Sender: 1, N: 99}, R("m1", "X", 1), R("m2", "X", 2), S("X")}}, Bound: 0},
 		{Name: "14-Rnew||Rnew;S", Threads: [][]Step{{R("m1", "X", 1)}, {R("m2", "X", 2), S("X")}}, Bound: 100},
+		{Name: "s8-limit1-(R;S)x4", MaxTopics: 1, Threads: [][]Step{{R("m1", "A", 1), S("A"), R("m2", "B", 1), S("B"), R("m3", "C", 1), S("C"), R("m4", "D", 1), S("D")}}, Bound: 0},
+		{Name: "s9-limit1-two-senders", MaxTopics: 1, Threads: [][]Step{{R("m1", "A", 1), R("n1", "A", 2), S("A"), R("m2", "B", 1), R("n2", "B", 2), S("B"), R("m3", "C", 1), R("n3", "C", 2), S("C")}}, Bound: 0},
 		{Name: "s5-tick-R;S", Pre: []Step{{Kind: "tick"}}, Threads: [][]Step{{R("m1", "X", 1), S("X")}}, Bound: 0},
 		{Name: "13-Rnew||Sother", Threads: [][]Step{{R("m1", "Z", 1)}, {S("X")}}, Bound: 100},
 		{Name: "10-gc-stored-R||Sother", Pre: []Step{R("m0", "Z", 1)}, Threads: [][]Step{{R("m1", "Z", 1)}, {S("X")}}, Bound: 100},
